@@ -355,9 +355,14 @@ class Engine:
 
     # ------------------------------------------------------------------
     # truthiness
-    def truth(self, v, node=None):
+    def truth(self, v, node=None, st=None):
         if isinstance(v, Raised):
             raise Unsupported(node, 'truth of raised')
+        h = self.contract.hooks.get('truth') if st is not None else None
+        if h:
+            r = h(self, v, st, node)             # a ghost container: its emptiness is the contract's (an event in the trace)
+            if r is not None:
+                return r
         k = v.k
         if k == 'bool':
             return v.z
@@ -601,7 +606,7 @@ class Engine:
                 outs.append(('raise', st1, c.exc))
                 continue
             st1 = self.refine_on_test(s.test, st1)
-            for st2, side in self.branch(st1, self.truth(c, s.test), s):
+            for st2, side in self.branch(st1, self.truth(c, s.test, st1), s):
                 st2 = self.narrow(s.test, side, st2)
                 outs.extend(self.exec_block(s.body if side else s.orelse, st2))
         return outs
@@ -695,7 +700,7 @@ class Engine:
             if isinstance(c, Raised):
                 outs.append(('raise', st1, c.exc))
                 continue
-            for st2, side in self.branch(st1, self.truth(c, s.test), s):
+            for st2, side in self.branch(st1, self.truth(c, s.test, st1), s):
                 if side:
                     outs.append(('next', st2))
                 else:
@@ -916,7 +921,7 @@ class Engine:
                     if isinstance(tv, Raised):
                         outs.append(('raise', st1, tv.exc))
                         continue
-                    for st2, side in self.branch(st1, self.truth(tv, s), s):
+                    for st2, side in self.branch(st1, self.truth(tv, s, st1), s):
                         if not side:
                             if s.orelse:
                                 outs.extend(self.exec_block(s.orelse, st2))
@@ -1136,7 +1141,7 @@ class Engine:
             if isinstance(c, Raised):
                 out.append((st1, c))
                 continue
-            for st2, side in self.branch(st1, self.truth(c, e.test), e):
+            for st2, side in self.branch(st1, self.truth(c, e.test, st1), e):
                 st2 = self.narrow(e.test, side, st2)
                 out.extend(self.eval(e.body if side else e.orelse, st2))
         return out
@@ -1158,7 +1163,7 @@ class Engine:
                     if last:
                         nxt.append((st2, v, True))
                         continue
-                    for st3, side in self.branch(st2, self.truth(v, sub), e):
+                    for st3, side in self.branch(st2, self.truth(v, sub, st2), e):
                         st3 = self.narrow(sub, side, st3)
                         if side == is_and:
                             nxt.append((st3, None, False))   # continue
@@ -1174,7 +1179,7 @@ class Engine:
                 out.append((st1, v))
                 continue
             if isinstance(e.op, ast.Not):
-                out.append((st1, vbool(z3.Not(self.truth(v, e)))))
+                out.append((st1, vbool(z3.Not(self.truth(v, e, st1)))))
             elif isinstance(e.op, ast.USub):
                 out.append((st1, self.neg(v, e, st1)))
             elif isinstance(e.op, ast.UAdd):
